@@ -238,6 +238,16 @@ func solve(query string, workDir string, name string, timeoutS int, all bool) (f
 			final = r
 		}
 	}
+	if all && final.Status == "unsat" {
+		// thorough tier: every solver ran; an unsat answer contradicted by a sat answer is not a proof
+		for _, r := range results {
+			if r.Status == "sat" {
+				final = SolverResult{Status: "disagree", Solver: final.Solver + " vs " + r.Solver, Secs: final.Secs,
+					Output: "solvers disagree: " + final.Solver + " answered unsat, " + r.Solver + " answered sat"}
+				return
+			}
+		}
+	}
 	if final.Status == "unsat" {
 		if !all {
 			cachePut(query, final.Solver)
